@@ -10,21 +10,23 @@ SPEC = dict(
                 "SingletonHook, PassthroughSingletonHook, KeyedSingletonHook, the six TopLevel* hooks) and every SimInlineHook (StreamOrderHook, MergeOrderedHook, KeyedStreamOrderHook, PartiallyOrderedStreamHook, KeyedMergeOrderedHook) transcribed line by line as "
                 "functions of (pending queues, choice tape, force_nontrivial), plus run_hooks' two passes, hook_can_release and "
                 "can_run of compiled.rs. Theorems, for every tape: ordered inputs release a prefix, unordered ones complementary "
-                "in-order sub-multisets (Split), per key for keyed inputs (KeyedRel); released ++ remaining is a permutation of the "
-                "pending items; over every history of pushes/decisions a SingletonHook's released versions never decrease; "
-                "a KeyedSingletonHook decision is, per key, unchanged / withheld / a buffered version with the older ones dropped, hence never older than the key's last snapshot; StreamOrderHook releases a permutation and MergeOrderedHook an order-preserving interleaving; a runnable tick with idle hooks that completes run_hooks made a non-trivial decision; the unconditional form is refuted on the model (F36: a tick holding an empty PassthroughSingletonHook panics for every tape; reproduced end to end, known finding). Tie: the same op lines (hook "
+                "in-order sub-multisets (Split), per key for keyed inputs (KeyedRel, keyedRel_per_key); released ++ remaining is a permutation of the "
+                "pending items for every stream-releasing hook kind (released_plus_remaining_perm, stated on Hook.auto + Hook.release, i.e. on what run_hooks calls per hook); over every history of pushes/decisions the released versions of a SingletonHook "
+                "(snapshot_version_monotone) and of a PassthroughSingletonHook incl. its unchanged re-releases (passthrough_snapshot_version_monotone) never decrease; "
+                "a KeyedSingletonHook decision is, per key, unchanged / withheld / a buffered version with the older ones dropped, hence never older than the key's last snapshot; StreamOrderHook releases a permutation and MergeOrderedHook an order-preserving interleaving; "
+                "run_hooks on the whole hook list of a runnable tick (SimTick::can_run) with idle, well-formed hooks never panics, every hook records and releases a decision and at least one decision is non-trivial, for every tape and every hook kind (runHooks_runnable_tick_releases = hook_auto_total + the two-pass forcing argument runHooks_some_nontrivial); same for a single-hook observation. "
+                "F36 (run_hooks panicked on a runnable tick holding a PassthroughSingletonHook with an empty buffer: every tape, reproduced end to end) is FIXED in /repo: the hook now keeps last_released and re-releases it as a trivial decision, is_ready() waits for the fold's first value; the former refutation theorem is replaced by the positive theorem above and the witness is a passing corpus case + a hydro_lang regression test. Tie: the same op lines (hook "
                 "creation, feeding, autonomous_decision with a tape, release_decision, can_run, run_hooks via a cfg-guarded "
                 "re-export) run on the real hooks with a scripted DynDriver and on the compiled model; every answer, the "
                 "driver-call log (ranges + values) and the queue contents are diffed; the property is also evaluated on the real "
-                "outputs by an independent oracle."),
+                "outputs by an independent oracle (prefix/subset/permutation/version/is_ready/progress checks written against the property, with its own record of released snapshots)."),
     level_note=("Trusted: Lean kernel + propext/Classical.choice/Quot.sound; FxHashMap iteration order is an input of the model "
-                "(observed from the real map and written into the op line); unsync mpsc channel, VecDeque, bolero's Borrowed/"
+                "(observed from the real map and written into the op line); Hook.WF (distinct hash-map keys; a KeyedSingletonHook key with an empty queue has been released before) is a hypothesis of the no-panic theorem; it holds for freshly created hooks fed by entry(k).or_default().push_back(v) (by inspection of builder.rs, not modelled) and is preserved by every decision + release (hook_wf_preserved, runHooks_preserves_wf); run_hooks is shown to act hook by hook (runHooks_is_hookwise), which carries the per-hook theorems to each component of its result (runHooks_nothing_lost_nothing_twice); the choice-tape convention 'every generate() consumes one entry' is that of the harness's scripted driver - bolero's exhaustive driver draws nothing for one-value ranges and its byte driver consumes by type width, which changes tapes but not the sets of decisions; unsync mpsc channel, VecDeque, bolero's Borrowed/"
                 "scope plumbing are exercised, not modelled; the keyed inline hooks have no theorem (correspondence + oracle only); the scheduler loop around "
                 "run_hooks (LaunchedSim::step) are not modelled; harness/differ are our code."),
     trusted_base=["FxHashMap iteration order taken as an explicit input (association list in observed order)",
                   "dfir_rs unsync mpsc channel / VecDeque / bolero scope exercised by correspondence, not modelled",
                   "LaunchedSim::step (async DFIR progress, tick execution, inline hooks) not modelled"],
-    refuted=["HvSim.runHooks_runnable_tick_panics_refuted"],
     assumptions=["items are u32; every generate() call consumes one tape entry mapped into its range",
                  "hooks are idle (no pending manual decision) when run_hooks starts, as in the scheduler"],
 )
